@@ -22,9 +22,9 @@ def check(run):
         for age in ((1, 720) if quick else (1, 2, 12, 24, 720)):
             cases.append('rolling %d %d kill %d %d %s %d' % (rng.randint(0, 1), rng.choice([1, 2]), rng.choice([20000, 40000]), rng.choice([2300, 3300]), tz, age))
     # the layout declared on the logger (the logger formats, references filter the bytes by level); the RollingFile logger plugin
-    for kind in ('file-ll', 'rollinglogger'):
+    for kind in ('file-ll', 'rollinglogger', 'filelogger', 'consolelogger'):
         for lay in (0, 1):
-            cases.append('%s %d %d %s %d %d' % (kind, lay, rng.choice([1, 2, 4]), rng.choice(['kill', 'exit']), rng.choice([5, 200, 3000]), 600 if kind == 'file-ll' else 1300))
+            cases.append('%s %d %d %s %d %d' % (kind, lay, rng.choice([1, 2, 4]), rng.choice(['kill', 'exit']), rng.choice([5, 200, 3000]), 1300 if kind == 'rollinglogger' else 600))
     # long lines whose formatting buffer lands on / around the pooled-buffer capacity, several goroutines, slow-ish targets
     for kind in ('console', 'file', 'rolling'):
         for cap, pad in (('8KB', 5000), ('8KB', 8000), ('4KB', 3000), ('10KB', 9800)):
